@@ -3,7 +3,8 @@
    invariant of the match text; the reference locations are folds of [advance]. *)
 From LexVerif Require Import Base CharClass RangeMap Regex Spec SpecExec LexSpec Nfa Dfa NfaToDfa NfaSem Codegen
      Runtime ScanIface RulesetSem Driver SpecDef ClassAlgProofs RuntimeProofs RuntimeLemmas ScanOkProofs
-     RulesetSemProofs LexSpecProofs LexSpecFacts EndToEnd Harness.
+     RulesetSemProofs LexSpecProofs LexSpecFacts EndToEnd EndToEndModel Instance Harness.
+From LexVerif.Gen Require Import GenTables GenConsts.
 
 Theorem c06_byte_index : forall (width : N -> N) (tab_width : N) (p : list N) (l : Loc),
   byte_idx (advance_all width tab_width l p) = (byte_idx l + utf8_size p)%N.
